@@ -22,10 +22,11 @@ var errInjected = errors.New("injected read error")
 // Buffered octets live in one backing array that is compacted on every
 // arrival, like a bufio.Reader: slices handed out by Peek go stale.
 type scriptedConn struct {
-	back   []byte
-	r, w   int
-	chunks [][]byte
-	fault  string
+	back     []byte
+	r, w     int
+	chunks   [][]byte
+	fault    string
+	withData bool // Read reports the end of the stream together with the last octets
 }
 
 func (c *scriptedConn) Size() int { return c.w - c.r }
@@ -88,6 +89,13 @@ func (c *scriptedConn) Read(p []byte) (int, error) {
 	}
 	n := copy(p, c.back[c.r:c.w])
 	c.r += n
+	if c.withData && c.Size() == 0 && len(c.chunks) == 0 {
+		// the io.Reader contract allows the last octets and the end of the stream in one call
+		if c.fault == "err" {
+			return n, errInjected
+		}
+		return n, io.EOF
+	}
 	return n, nil
 }
 
@@ -281,6 +289,7 @@ func runFrame(c Case, tr *Tracer) {
 	} else {
 		cd = codec.NewCMPPCodec()
 	}
+	conn0WithData := caseInt(c, "t")%3 == 0
 	if caseInt(c, "t")%2 == 0 {
 		if caseStr(c, "codec") == "smpp" {
 			cd = sharedFrameCodecs["smpp"]
@@ -289,7 +298,7 @@ func runFrame(c Case, tr *Tracer) {
 		}
 	}
 	stream := caseBytes(c, "stream")
-	conn := &scriptedConn{fault: caseStr(c, "fault")}
+	conn := &scriptedConn{fault: caseStr(c, "fault"), withData: conn0WithData}
 	off := 0
 	if cs, ok := c["cuts"].([]interface{}); ok {
 		for _, x := range cs {
